@@ -9,7 +9,7 @@ import (
 
 func init() {
 	register(&propDef{
-		ID: "C05", Level: "other", Run: withShared(runC05, share{"C04", runC04, ruleIs("no-offers-outside-action-wait")}, share{"C12", runC12, ruleIs("wager-monotone")}, share{"C11", runC11, ruleIs("amounts")}),
+		ID: "C05", Level: "other", Run: withShared(runC05, share{"C04", runC04, ruleIs("no-offers-outside-action-wait", "current-seat-only")}, share{"C12", runC12, ruleIs("wager-monotone")}, share{"C11", runC11, ruleIs("amounts")}),
 		Explanation: "Typestate rules the per-seat acted flags must obey for a round to close when it should: every offered action marks the actor acted on every accepted path before re-entering the chain; every in-round raise of the wager to match is followed, on every path to the return, by a reset of the other seats' flags; the raiser stays acted; the hand completes at once when one player is alive (dominates every street entry, and the seat walk); no betting round is opened with fewer than two movable players; the alive and movable counters count exactly not-folded and not-folded-with-chips over all players. Does NOT decide that a round closes within one lap and never early for every interleaving.",
 		Trusted:     commonTrusted,
 		Assumptions: []string{"alias player.state == Player.State() (see C07)", "the walk closes a round when it reaches an acted seat (RequestPlayerAction, checked here structurally)"},
